@@ -16,7 +16,7 @@ ve, er = "/tmp/ve%s" % slot, "/tmp/er%s" % slot
 sh(["git", "-C", "/repo", "worktree", "remove", "--force", er]); shutil.rmtree(er, ignore_errors=True); shutil.rmtree(ve, ignore_errors=True)
 sh(["rsync", "-a", "--exclude", ".cache", "--exclude", ".run", "--exclude", ".bin", "--exclude", ".git", "--exclude", "seeded", "--exclude", "spec_extract", os.environ.get("SEEDISO_SRC", "/verif").rstrip("/") + "/", ve + "/"])
 sh(["git", "-C", "/repo", "worktree", "add", "-q", "--detach", er, "HEAD"])
-res = {"dir": d, "property": meta["property"], "checks": {}}
+res = {"dir": d, "property": meta.get("property", ""), "checks": {}}
 rc, out = sh(["git", "apply", os.path.join(d, "patch.diff")], cwd=er)
 if rc != 0:
     res["error"] = "patch does not apply: " + out[-200:]
